@@ -641,7 +641,7 @@ fn numeric_shape(cx: &mut Ctx) {
         None => cx.anchor_missing(rule, "lex_number_radix"),
     }
     match lr::lexer_method(&lx, "radix_run") {
-        Some(r) if sm::tsx(&r.block).contains("ifself.window[0]==Some('_')&&Lexer::<T>::is_digit_of_radix(self.window[1],radix){self.next_char();}else{break;}") => cx.ok(rule, "radix_run: `_` is consumed only when a digit of the radix follows"),
+        Some(r) if sm::tsx(&r.block).contains("ifself.window[0]==Some('_')&&Lexer::is_digit_of_radix(self.window[1],radix){self.next_char();}else{break;}") => cx.ok(rule, "radix_run: `_` is consumed only when a digit of the radix follows"),
         Some(r) => cx.fail(rule, &format!("{}/underscore", rule), &lx.loc(r), "radix_run consumes an underscore that is not followed by a digit of the radix"),
         None => cx.anchor_missing(rule, "radix_run"),
     }
